@@ -73,6 +73,9 @@ func NewFloatType(min float64, max float64) *FloatType {
 	if min > max {
 		panic(illegalArguments(`Float[]`, `min is not allowed to be greater than max`))
 	}
+	if math.IsNaN(min) || math.IsNaN(max) {
+		panic(illegalArguments(`Float[]`, `NaN is not allowed as a bound`))
+	}
 	return &FloatType{min, max}
 }
 
@@ -153,7 +156,8 @@ func (t *FloatType) IsAssignable(o px.Type, g px.Guard) bool {
 
 func (t *FloatType) IsInstance(o px.Value, g px.Guard) bool {
 	if n, ok := toFloat(o); ok {
-		return t.min <= n && n <= t.max
+		// NaN is outside every range: it is an instance of the unbounded Float type only
+		return t.min <= n && n <= t.max || t.IsUnbounded()
 	}
 	return false
 }
@@ -401,5 +405,9 @@ func padFloat(f px.Format, str string) string {
 
 func (fv floatValue) PType() px.Type {
 	f := float64(fv)
+	if math.IsNaN(f) {
+		// no range contains NaN: its type is the unbounded Float type
+		return floatTypeDefault
+	}
 	return &FloatType{f, f}
 }
